@@ -7,8 +7,10 @@ package instr
 import (
 	"fmt"
 	"go/ast"
+	"go/importer"
 	"go/parser"
 	"go/token"
+	"go/types"
 	"os"
 	"path/filepath"
 	"sort"
@@ -34,6 +36,13 @@ type Result struct {
 	// Unowned lists constructs the simulator cannot schedule (the library's own
 	// goroutines, channel operations, select): they force the degraded mode.
 	Unowned []string `json:"unowned,omitempty"`
+	// MapRanges is the number of `range <map>` loops whose iteration order the
+	// simulator took over; MapOrderOwned is false when type checking failed (then
+	// Go's per-process random order remains and replays inside such loops are
+	// only probabilistic).
+	MapRanges     int    `json:"map_ranges_owned"`
+	MapOrderOwned bool   `json:"map_order_owned"`
+	TypeCheckNote string `json:"typecheck_note,omitempty"`
 	// Notes lists imports through which the library could observe something
 	// outside its arguments (clock, OS, network, random numbers). They do not stop
 	// the simulation; if such a value reaches a result, O4/O5 report it.
@@ -155,6 +164,14 @@ func Instrument(root string, plain bool) (*Result, error) {
 		}
 	}
 
+	// type information (only used to recognise `range` over a map)
+	mapRange := map[*ast.RangeStmt]bool{}
+	if !plain {
+		note := typeCheck(fset, mod, files, parsed, mapRange)
+		res.TypeCheckNote = note
+		res.MapOrderOwned = note == ""
+	}
+
 	for _, f := range files {
 		af := parsed[f]
 		b := src[f]
@@ -213,6 +230,12 @@ func Instrument(root string, plain bool) (*Result, error) {
 				for _, st := range v.Body {
 					addSite(st)
 				}
+			case *ast.RangeStmt:
+				if mapRange[v] && !plain {
+					res.MapRanges++
+					edits = append(edits, edit{off: tf.Offset(v.X.Pos()), text: "zsimrt.MapSeq("})
+					edits = append(edits, edit{off: tf.Offset(v.X.End()), text: ")"})
+				}
 			case *ast.GoStmt:
 				res.Unowned = append(res.Unowned, fmt.Sprintf("%s:%d: go statement", f, fset.Position(v.Pos()).Line))
 			case *ast.SelectStmt:
@@ -252,6 +275,111 @@ func Instrument(root string, plain bool) (*Result, error) {
 	}
 	res.NumSites = len(res.Sites)
 	return res, nil
+}
+
+// typeCheck type-checks the library packages (standard library from source, the
+// library's own packages from the parsed files) and records which range
+// statements iterate over a map. It returns "" on success, else why map order
+// could not be taken over.
+func typeCheck(fset *token.FileSet, mod string, files []string, parsed map[string]*ast.File, out map[*ast.RangeStmt]bool) (note string) {
+	defer func() {
+		if r := recover(); r != nil {
+			note = fmt.Sprintf("type checker panicked: %v", r)
+		}
+	}()
+	byDir := map[string][]*ast.File{}
+	for _, f := range files {
+		d := filepath.ToSlash(filepath.Dir(f))
+		byDir[d] = append(byDir[d], parsed[f])
+	}
+	pathOf := func(dir string) string {
+		if dir == "." {
+			return mod
+		}
+		return mod + "/" + dir
+	}
+	dirOf := map[string]string{}
+	for d := range byDir {
+		dirOf[pathOf(d)] = d
+	}
+	std := importer.ForCompiler(fset, "source", nil)
+	done := map[string]*types.Package{}
+	var firstErr error
+	var imp importerFunc
+	var check func(path string) (*types.Package, error)
+	check = func(path string) (*types.Package, error) {
+		if p, ok := done[path]; ok {
+			if p == nil {
+				return nil, fmt.Errorf("import cycle through %s", path)
+			}
+			return p, nil
+		}
+		done[path] = nil
+		info := &types.Info{Types: map[ast.Expr]types.TypeAndValue{}}
+		conf := types.Config{Importer: imp, Error: func(err error) {
+			if firstErr == nil {
+				firstErr = err
+			}
+		}}
+		p, _ := conf.Check(path, fset, byDir[dirOf[path]], info)
+		done[path] = p
+		for _, af := range byDir[dirOf[path]] {
+			ast.Inspect(af, func(n ast.Node) bool {
+				if rs, ok := n.(*ast.RangeStmt); ok {
+					if tv, ok := info.Types[rs.X]; ok && tv.Type != nil {
+						if _, isMap := tv.Type.Underlying().(*types.Map); isMap {
+							out[rs] = true
+						}
+					}
+				}
+				return true
+			})
+		}
+		return p, nil
+	}
+	imp = func(path string) (*types.Package, error) {
+		if _, ok := dirOf[path]; ok {
+			return check(path)
+		}
+		return std.Import(path)
+	}
+	for path := range dirOf {
+		if _, err := check(path); err != nil {
+			return err.Error()
+		}
+	}
+	if firstErr != nil {
+		return "type errors: " + firstErr.Error()
+	}
+	return ""
+}
+
+type importerFunc func(path string) (*types.Package, error)
+
+func (f importerFunc) Import(path string) (*types.Package, error) { return f(path) }
+
+// BumpGoVersion raises the scratch module's language version to 1.23 when it is
+// lower (range-over-func, which MapSeq needs, is a go1.23 language feature).
+func BumpGoVersion(root string) error {
+	p := filepath.Join(root, "go.mod")
+	b, err := os.ReadFile(p)
+	if err != nil {
+		return err
+	}
+	lines := strings.Split(string(b), "\n")
+	for i, ln := range lines {
+		t := strings.TrimSpace(ln)
+		if strings.HasPrefix(t, "go ") {
+			v := strings.TrimSpace(strings.TrimPrefix(t, "go "))
+			parts := strings.Split(v, ".")
+			if len(parts) >= 2 && parts[0] == "1" {
+				if minor, err := strconv.Atoi(parts[1]); err == nil && minor < 23 {
+					lines[i] = "go 1.23"
+				}
+			}
+		}
+	}
+	return os.WriteFile(p, []byte(strings.Join(lines, "\n")), 0o644)
 }
 
 // stmtFlags computes the search-bias flags of one statement. For compound
